@@ -145,7 +145,8 @@ ADDENDA = {
            'classified alias / copy / fresh, every in-place mutation, every row handed to a writer; the select / update / except expression texts come from the real shallow_parse_input_query / translate_* functions): generated obligation C06_generated_row_flows_pass_check '
            '(decide +kernel), whose meaning is C06_row_flow_sound: a heap machine in which rows are references; if the may-alias check passes then NO program made of the flow\'s statements, in any order and number, modifies an object of the caller\'s tables or hands one to a writer; '
            'C06_row_flow_check_monotone (deleting statements cannot break it); counterexample theorems (UPDATE without the copy; out_fields aliasing the record) exhibit the mutated / leaked input object. D21 (CSV writers normalised nested lists of the input table in place) found and fixed. ',
-    'C07': 'TEXT-TO-COLUMN-INFO (the rbql-js header parser is modelled in Model/Translate.lean and tied on every string of length <= 5 over {a 1 [ ] ( , space}; the Python ast route is compared with it on generated select lists): '
+    'C07': 'PYTHON AST ROUTE MODELLED (Model/PyAst.lean: column_info_from_node, the breadth-first alias search, the Tuple / error-code logic, over the tree the REAL parser builds; C07_py_one_info_per_item, C07_py_simple_roots_are_not_aliases, C07_py_alias_decided_by_first_call, C07_py_alias_search_is_breadth_first). '
+           'TEXT-TO-COLUMN-INFO (the rbql-js header parser is modelled in Model/Translate.lean and tied on every string of length <= 5 over {a 1 [ ] ( , space}; the Python ast route is compared with it on generated select lists): '
            'C07_root_spans_exact (one span per item for bracket-balanced items without a top-level comma; (rootSpans s).isOk = Balanced s), C07_span_kinds (aN, a[N], a.name, bare identifiers, star markers, a[literal], `expr AS name` for EVERY expr), '
            'C07_span_info_sound (inversion: a non-null info correctly names its column - the guarantee stated in the source comment), C07_unquote_escaped_full (unquote_string undoes js_string_escape_column_name for EVERY name, after the repair D20), '
            'C07_text_to_header_width / C07_text_header_matches_records: the hypothesis `aligned items infos` of C07_header_matches_records is DISCHARGED from the item texts for the JS port. Defects D19 (tuple item, Python) and D20 (control-character escapes, JS) found by these proofs/ties and fixed. ',
@@ -160,13 +161,17 @@ ADDENDA = {
            'C04_record_numbers_swapped_counterexample (`bNR == NR` is refused), C04_ambiguous_key_refused, C04_resolved_key_lists_have_equal_length (one entry per pair, in order: the join well-formedness hypothesis of the rbql.js refinement holds for every parsed query). ',
     'C08': 'JAVASCRIPT PORT: the rbql.js literal scanner is modelled (separateLiteralsJs) and tied on every string of length <= 7 over {\' " \\ a `}; C08_js_literals_reassemble, C08_js_literal_closes_after_escaped_backslash (regression theorem of defect D23, fixed: '
            '`\'a\\\\\' where …` swallowed the next clause), C08_js_literals_extracted, C08_js_literal_contents_opaque(_for_the_parse), C08_js_agrees_with_python_on_common_literals, counterexamples for every side condition and for the real differences (back-ticks, line feeds, triple quotes). ',
-    'C13': 'ENCODINGS ON THE COMMAND LINE: non-ASCII tables under --encoding utf-8 / latin-1 x PYTHONIOENCODING x {file->file, file->stdout, stdin->stdout}: the bytes written are the query_table result in the requested encoding; LONE-STAR JOIN battery through every entry point. '
+    'C13': 'FRONT DOOR OF THE COMMAND LINE modelled (Model/Cli.lean cliDoor: --version / --color / --output / --policy / --delim / --query) and tied on all 800 combinations to the real process '
+           '(refusals = Error [generic] on stderr, exit 1, empty stdout; a run = byte for byte what query_csv writes for the dialect the model names): C13_cli_runs_iff, C13_cli_noninteractive_runs_or_refuses, C13_cli_run_dialect, C13_cli_monocolumn_needs_no_delim. '
+           'ENCODINGS ON THE COMMAND LINE: non-ASCII tables under --encoding utf-8 / latin-1 x PYTHONIOENCODING x {file->file, file->stdout, stdin->stdout}: the bytes written are the query_table result in the requested encoding; LONE-STAR JOIN battery through every entry point. '
            'COMMAND LINE: which dialects `python -m rbql` hands to query_csv is modelled (Model/Cli.lean: cliDialects) and tied to the REAL run_with_python_csv (query_csv replaced by a recorder) for 25 delimiter spellings x {no policy, 5 policies} x {input, csv, tsv}: '
            'C13_cli_out_format_input (output dialect = input dialect), C13_cli_out_format_named, C13_cli_default_policy, C13_cli_delim_spelling. ',
     'C16': 'SHARED STATE made explicit: machines over module-level state g (steps may READ it); C16_frame_implies_independence: if no step writes g (the frame condition the regenerated footprint supports) every schedule gives the solo results; '
            'C16_shared_write_counterexample / _history_counterexample: a step that records a decision in shared state (the shape of the seeded shared NumHandler) makes results depend on schedule and on history. '
            'FOOTPRINT: the scanner follows aliases, elements of shallow copies, parameters and return values (taint), memoising decorators and function attributes, and also covers the front-end modules '
            '(C16_frontends_no_shared_writes: rbql_csv / rbql_pandas / rbql_sqlite / rbql_main); histories include FROM queries (input from the registry) and all sequences of <= 3 (4) query_csv calls in which one relative join-table name denotes different files; SHARED OBJECTS: all sequences of <= 2 (3) queries over the same table objects and one registry object. ',
+    'C20': 'CONSUMER INDEPENDENCE: every multi-chunk stream is read twice by the real rbql-js reader — get_all_records from a synchronous source, and a consumer that yields to the event loop from an asynchronous source — both must equal the model. ',
+    'C02': 'CSV SINK: DISTINCT / ORDER BY / TOP queries with number, None and quote-needing cells through query_csv against query_table (the CSV writer renders the record it is handed; that must not leak into what the stages remember). ',
     'C15': 'STDOUT AS A REAL PIPE: query_csv writing to a pipe whose reader is gone (results of 0 / 1 / 20 / 30000 records, so the break happens at the final flush or inside the loop) must return and leave no descriptor it opened behind (/proc/self/fd). ',
     'C14': 'BOM END TO END: query_csv on files through the real decoders of both ports: the BOM warning appears iff the input / join table bytes begin with EF BB BF (utf-8 and latin-1, every policy, with and without header) and the mark never reaches the output. ',
     'C19': 'THE rbql.js ENGINE IS NOW MODELLED where it differs from the reference (Model/EngineJs.lean: JSON.stringify-keyed Set/Map for DISTINCT, stable_compare over keys+NR then reverse, compare_key_arrays of decoded group keys, JSON text of multi-column join keys, TopWriter ignoring its sub-writer); '
